@@ -557,6 +557,20 @@ def check_C13(ctx, rt):
                                       original=s0.replace("[nop]", ""), padded=v, flags=flags[0])
             allv.extend(vs)
         run_decoder_stream(ctx, rt, "nop-padded", allv[:rt.n(1500, 40000)], "default", sf.get_preset_constraints("default"))
+        # padding comes in long unbroken runs (pad_to_len of a whole data set): runs of 1 500 and 5 000 [nop] at the end,
+        # behind a branch symbol (before its index), before a dot and in front
+        for s0 in ["[C][=C][Branch1][C][F][O]", "[C][C][Ring1][C].[N][#C]", "[C][Branch1][Ring1][C][O][N]"]:
+            toks = list(sf.split_selfies(s0))
+            r0 = impl.real_decoder(s0)
+            for run in (1500, 5000):
+                for pos in sorted({0, 1, 3, len(toks)} | {i for i, t in enumerate(toks) if t == "."}):
+                    v = "".join(toks[:pos]) + "[nop]" * run + "".join(toks[pos:])
+                    ctx.evaluations += 1
+                    r1 = impl.real_decoder(v)
+                    if r0 != r1:
+                        add_violation(ctx, "C13:nop-visible", "a long run of [nop] changes the decoder result",
+                                      original=s0, padded="%s + '[nop]'*%d + %s" % ("".join(toks[:pos]), run, "".join(toks[pos:])),
+                                      plain=r0[:120], with_padding=r1[:120])
         # padding round trip through the encodings
         for s in base[:rt.n(300, 5000)]:
             if s.count("..") or s.startswith(".") or "[nop]" in s:
@@ -932,6 +946,12 @@ def check_C15(ctx, rt):
         lines.append("s2e\t%s\t%s\t%d\t%s" % (enc(s), vocab_wire(stoi), pad, et))
         expected.append(w)
         wf = not s.startswith(".") and ".." not in s
+        # "for every vocabulary bijection and string over it ... yields the labels": a refusal of a string whose
+        # symbols (and, if padding is needed, [nop]) are all in the vocabulary, with a valid enc_type, is a failure
+        if w.startswith("err") and wf and et in ("label", "one_hot", "both") and all(t in stoi for t in toks) \
+                and (pad <= n or "[nop]" in stoi):
+            add_violation(ctx, "C15:encode-raises", "selfies_to_encoding refuses a string over the vocabulary (%s)" % w.split("\t")[1],
+                          string=s, vocab=stoi, pad=pad, enc_type=et)
         if w.startswith("ok") and wf:
             items = list(sf.split_selfies(s))
             L = max(len(items), pad)
